@@ -12,4 +12,5 @@ type GHandle struct{ id int64 }
 func ThisG() GHandle              { return GHandle{goid()} }
 func (h GHandle) NotParked() bool { return false }
 func (h GHandle) Parked() bool    { return false }
+
 var gstatusOff = -1
